@@ -115,6 +115,16 @@ def run(ctx):
             path = gen.write(os.path.join(d, name + "." + cont), gen.contain(data, cont, **kw))
         use = sorted({max(64, min(0xFFFFFF, x)) for x in (B, B - 1, B + 1, rng.choice(bszs))})
         opts = rng.choice([[], [], ["-n", "-u"], ["-p", "-l", "-w"]])
+        if bz is not None and rng.random() < 0.45:
+            # the same options at every block size include a datetime window: the search for the first message (binary on plain
+            # files, linear on streamed ones) walks the blocks differently at every block size
+            inst = sorted({m.ns for m in bz[1]})
+            a_, b_ = sorted([rng.choice(inst), rng.choice(inst)])
+            def _bs(ns):
+                y, mo, dd, hh, mi, ss, n, _ = gen.civil(ns, 0)
+                return "%04d-%02d-%02dT%02d:%02d:%02d.%06d+00:00" % (y, mo, dd, hh, mi, ss, n // 1000)
+            k = rng.choice(["a", "a", "b", "ab"])
+            opts = opts + (["-a", _bs(a_)] if "a" in k else []) + (["-b", _bs(b_)] if "b" in k else [])
         if payload == "journal":
             opts = opts + ["--journal-output", rng.choice(["short", "export", "cat"])]
         jobs.append((s4, path, use, opts, None))
